@@ -22,12 +22,16 @@ pub(super) fn read_values(
     ty: format::Type,
     sample_count: usize,
 ) -> Result<Vec<Option<Value>>, DecodeError> {
-    let value_ty = read_type(src)
-        .map_err(DecodeError::InvalidType)?
-        .expect("unhandled type");
+    let value_ty =
+        read_type(src)
+            .map_err(DecodeError::InvalidType)?
+            .ok_or(DecodeError::TypeMismatch {
+                actual: None,
+                expected: ty,
+            })?;
 
     match (number, ty, value_ty) {
-        (Number::Count(0), _, _) => todo!("invalid number for type"),
+        (Number::Count(0), _, _) => Err(DecodeError::InvalidNumberForType(number, ty)),
 
         (_, _, Type::Int8(0) | Type::Int16(0) | Type::Int32(0) | Type::Float(0)) => {
             Err(DecodeError::InvalidLength)
@@ -63,7 +67,10 @@ pub(super) fn read_values(
             read_string_array_values(src, sample_count, n)
         }
 
-        _ => todo!("unhandled type"),
+        _ => Err(DecodeError::TypeMismatch {
+            actual: Some(value_ty),
+            expected: ty,
+        }),
     }
 }
 
@@ -78,7 +85,7 @@ fn read_i8_values(src: &mut &[u8], sample_count: usize) -> Result<Vec<Option<Val
         match value {
             Int8::Value(n) => values.push(Some(Value::from(i32::from(n)))),
             Int8::Missing => values.push(None),
-            _ => todo!("unhandled i8 value: {:?}", value),
+            _ => return Err(DecodeError::InvalidValue),
         }
     }
 
@@ -95,16 +102,16 @@ fn read_i8_array_values(
     for _ in 0..sample_count {
         let buf = read_i8s(src, len).map_err(DecodeError::InvalidRawValue)?;
 
-        let vs: Vec<_> = buf
+        let vs = buf
             .into_iter()
             .map(Int8::from)
             .filter_map(|value| match value {
-                Int8::Value(n) => Some(Some(i32::from(n))),
-                Int8::Missing => Some(None),
+                Int8::Value(n) => Some(Ok(Some(i32::from(n)))),
+                Int8::Missing => Some(Ok(None)),
                 Int8::EndOfVector => None,
-                _ => todo!("unhandled i8 array value: {:?}", value),
+                _ => Some(Err(DecodeError::InvalidValue)),
             })
-            .collect();
+            .collect::<Result<Vec<_>, _>>()?;
 
         if vs.len() == 1 && vs[0].is_none() {
             values.push(None);
@@ -130,7 +137,7 @@ fn read_i16_values(
         match value {
             Int16::Value(n) => values.push(Some(Value::from(i32::from(n)))),
             Int16::Missing => values.push(None),
-            _ => todo!("unhandled i16 value: {:?}", value),
+            _ => return Err(DecodeError::InvalidValue),
         }
     }
 
@@ -147,16 +154,16 @@ fn read_i16_array_values(
     for _ in 0..sample_count {
         let buf = read_i16s(src, len).map_err(DecodeError::InvalidRawValue)?;
 
-        let vs: Vec<_> = buf
+        let vs = buf
             .into_iter()
             .map(Int16::from)
             .filter_map(|value| match value {
-                Int16::Value(n) => Some(Some(i32::from(n))),
-                Int16::Missing => Some(None),
+                Int16::Value(n) => Some(Ok(Some(i32::from(n)))),
+                Int16::Missing => Some(Ok(None)),
                 Int16::EndOfVector => None,
-                _ => todo!("unhandled i16 array value: {:?}", value),
+                _ => Some(Err(DecodeError::InvalidValue)),
             })
-            .collect();
+            .collect::<Result<Vec<_>, _>>()?;
 
         if vs.len() == 1 && vs[0].is_none() {
             values.push(None);
@@ -182,7 +189,7 @@ fn read_i32_values(
         match value {
             Int32::Value(n) => values.push(Some(Value::from(n))),
             Int32::Missing => values.push(None),
-            _ => todo!("unhandled i32 value: {:?}", value),
+            _ => return Err(DecodeError::InvalidValue),
         }
     }
 
@@ -199,16 +206,16 @@ fn read_i32_array_values(
     for _ in 0..sample_count {
         let buf = read_i32s(src, len).map_err(DecodeError::InvalidRawValue)?;
 
-        let vs: Vec<_> = buf
+        let vs = buf
             .into_iter()
             .map(Int32::from)
             .filter_map(|value| match value {
-                Int32::Value(n) => Some(Some(n)),
-                Int32::Missing => Some(None),
+                Int32::Value(n) => Some(Ok(Some(n))),
+                Int32::Missing => Some(Ok(None)),
                 Int32::EndOfVector => None,
-                _ => todo!("unhandled i32 array value: {:?}", value),
+                _ => Some(Err(DecodeError::InvalidValue)),
             })
-            .collect();
+            .collect::<Result<Vec<_>, _>>()?;
 
         if vs.len() == 1 && vs[0].is_none() {
             values.push(None);
@@ -234,7 +241,7 @@ fn read_f32_values(
         match value {
             Float::Value(n) => values.push(Some(Value::from(n))),
             Float::Missing => values.push(None),
-            _ => todo!("unhandled f32 value: {:?}", value),
+            _ => return Err(DecodeError::InvalidValue),
         }
     }
 
@@ -251,16 +258,16 @@ fn read_f32_array_values(
     for _ in 0..sample_count {
         let buf = read_f32s(src, len).map_err(DecodeError::InvalidRawValue)?;
 
-        let vs: Vec<_> = buf
+        let vs = buf
             .into_iter()
             .map(Float::from)
             .filter_map(|value| match value {
-                Float::Value(n) => Some(Some(n)),
-                Float::Missing => Some(None),
+                Float::Value(n) => Some(Ok(Some(n))),
+                Float::Missing => Some(Ok(None)),
                 Float::EndOfVector => None,
-                _ => todo!("unhandled f32 array value: {:?}", value),
+                _ => Some(Err(DecodeError::InvalidValue)),
             })
-            .collect();
+            .collect::<Result<Vec<_>, _>>()?;
 
         if vs.len() == 1 && vs[0].is_none() {
             values.push(None);
@@ -296,7 +303,7 @@ fn read_char_values(
 
     for _ in 0..sample_count {
         let s = read_string_until_nul(src, len)?;
-        let c = s.chars().next().unwrap();
+        let c = s.chars().next().ok_or(DecodeError::MissingCharacter)?;
 
         let value = match c {
             MISSING => None,
@@ -324,11 +331,12 @@ fn read_char_array_values(
 
         let value = Value::from(
             s.split(DELIMITER)
-                .map(|t| match t.chars().next().unwrap() {
-                    MISSING => None,
-                    c => Some(c),
+                .map(|t| match t.chars().next() {
+                    Some(MISSING) => Ok(None),
+                    Some(c) => Ok(Some(c)),
+                    None => Err(DecodeError::MissingCharacter),
                 })
-                .collect::<Vec<_>>(),
+                .collect::<Result<Vec<_>, _>>()?,
         );
 
         values.push(Some(value));
@@ -423,7 +431,7 @@ pub(super) fn read_genotype_values(
                 }
             }
         },
-        ty => todo!("unhandled type: {:?}", ty),
+        ty => return Err(DecodeError::InvalidGenotypeType(ty)),
     }
 
     Ok(values)
@@ -469,9 +477,17 @@ fn parse_genotype_values(values: &[i8]) -> Result<Genotype, DecodeError> {
 #[derive(Debug, Eq, PartialEq)]
 pub enum DecodeError {
     InvalidType(ty::DecodeError),
+    InvalidNumberForType(Number, format::Type),
+    TypeMismatch {
+        actual: Option<Type>,
+        expected: format::Type,
+    },
     InvalidLength,
     InvalidRawValue(raw_value::DecodeError),
+    InvalidValue,
     InvalidString(str::Utf8Error),
+    MissingCharacter,
+    InvalidGenotypeType(Option<Type>),
     InvalidGenotype,
 }
 
@@ -490,9 +506,18 @@ impl fmt::Display for DecodeError {
     fn fmt(&self, f: &mut fmt::Formatter<'_>) -> fmt::Result {
         match self {
             Self::InvalidType(_) => write!(f, "invalid type"),
+            Self::InvalidNumberForType(number, ty) => {
+                write!(f, "invalid number {number:?} for type {ty:?}")
+            }
+            Self::TypeMismatch { actual, expected } => {
+                write!(f, "type mismatch: expected {expected:?}, got {actual:?}")
+            }
             Self::InvalidLength => write!(f, "invalid length"),
             Self::InvalidRawValue(_) => write!(f, "invalid raw value"),
+            Self::InvalidValue => write!(f, "invalid value"),
             Self::InvalidString(_) => write!(f, "invalid string"),
+            Self::MissingCharacter => write!(f, "missing character"),
+            Self::InvalidGenotypeType(ty) => write!(f, "invalid genotype type: {ty:?}"),
             Self::InvalidGenotype => write!(f, "invalid genotype"),
         }
     }
